@@ -1,2 +1,4 @@
 import EmdProps.C20
 import EmdProps.C01
+import EmdProps.C07
+import EmdProps.C08
